@@ -16,7 +16,7 @@ class Topology:
     """
     if link.is_circular():
       return False
-    if not link.get("from_segment").dovetails_of_end(\
+    if not link.from_segment.dovetails_of_end(\
              gfapy.invert(link.from_end.end_type)):
       return True
     if not link.to_segment.dovetails_of_end(gfapy.invert(link.to_end.end_type)):
@@ -25,7 +25,7 @@ class Topology:
     for et in ["from", "to"]:
       c[et] = set()
       visited = set()
-      segend = link.get("from_segment") if et == "from" else link.to_segment
+      segend = link.from_segment if et == "from" else link.to_segment
       visited.add(segend.name)
       visited.add(link.other_end(segend).name)
       self.__traverse_component(segend, c[et], visited)
